@@ -91,4 +91,34 @@ def render (c : RecvCommitment) : Rendered :=
    hexEncode c.bidDigest, hexEncode c.bidSignature, hexEncode c.digest, hexEncode c.signature,
    hexEncode c.providerAddress⟩
 
+/-- what the network layer does with a bid handed to it: it refuses it (no provider connected,
+the key store cannot sign: `sender.SendBid` returns an error) or returns these commitments -/
+inductive Net where
+  | fails
+  | commits (cs : List RecvCommitment)
+  deriving Repr, DecidableEq
+
+inductive Status where
+  | ok | invalid | internal
+  deriving Repr, DecidableEq
+
+structure Out where
+  status : Status
+  forwarded : List Forwarded
+  streamed : List Rendered
+  deriving Repr, DecidableEq
+
+/-- one call of the handler -/
+def handle1 (r : Req) (n : Net) : Out :=
+  match forwarded r with
+  | none => ⟨.invalid, [], []⟩
+  | some f =>
+    match n with
+    | .fails => ⟨.internal, [f], []⟩
+    | .commits cs => ⟨.ok, [f], cs.map render⟩
+
+/-- the one long-lived service of a node answering a sequence of calls: it keeps nothing from one
+call to the next -/
+def session (xs : List (Req × Net)) : List Out := xs.map (fun x => handle1 x.1 x.2)
+
 end MevCommit.BidderApi
